@@ -161,7 +161,8 @@ func GetTimeFromString(now time.Time, format string, date string) (time.Time, er
 	if err == nil {
 		return customTime, nil
 	}
-	return naturaldate.Parse(date, time.Now())
+	// natural-language dates ("2 days ago") are relative to the current date in effect (--today, configuration file), not to the wall clock
+	return naturaldate.Parse(date, now)
 }
 
 func (o *Options) populateFilter(c *cli.Context) error {
